@@ -1,5 +1,5 @@
 (* C16 model: src/tools.c reb_simulation_rescale_var, branch for branch, polymorphic in Num.  Definitions only.
-   One variational configuration = (order, lrescale, its particles' x,y,z,vx,vy,vz); the particle list has
+   One variational configuration = (order, lrescale, its particles' m,x,y,z,vx,vy,vz); the particle list has
    N = 1 entries if vc.testparticle >= 0 and N_real entries otherwise (the harness / theorem supplies that list).
    log() is libm: the model takes lg : T -> T (ln over R; a table of libm values in the binary64 run).
    big = the double 1e100.  (Since /repo 8a5d079 the IAS15 branch also rescales the integrator's per-particle state of the set.)
@@ -11,7 +11,8 @@ Import ListNotations.
 
 Section Rescale.
 Context {T : Type} (N : Num T).
-Definition P6 : Type := (T * T * T * T * T * T)%type.
+(* one variational particle: m, x, y, z, vx, vy, vz (the mass is rescaled too since /repo 32cf4f3; it does not enter `scale`) *)
+Definition P6 : Type := (T * T * T * T * T * T * T)%type.
 (* vc_alloc: r->ri_ias15.N_allocated >= 3*(vc->index+N)   (IAS15 has allocated its arrays for this set);
    vc_ias: the IAS15 per-particle state of the set, entries k = 3*index .. 3*(index+N)-1 of
            csx, csv and of p0..p6 of b, csb, e, br, er  (37 numbers per entry; the order inside the list is irrelevant
@@ -24,11 +25,11 @@ Record Flags : Type := mkFl { integ : nat; wh_sync : bool; eos_sync : bool; safe
 (* scale = MAX(fabs(c), scale)  with  MAX(a,b) = ((a) > (b) ? (a) : (b)) *)
 Definition maxabs (c s : T) : T := if nltb N s (nabs N c) then nabs N c else s.
 Definition scale_step (s : T) (p : P6) : T :=
-  let '(x, y, z, vx, vy, vz) := p in maxabs vz (maxabs vy (maxabs vx (maxabs z (maxabs y (maxabs x s))))).
+  let '(m, x, y, z, vx, vy, vz) := p in maxabs vz (maxabs vy (maxabs vx (maxabs z (maxabs y (maxabs x s))))).
 Definition scale_of (ps : list P6) : T := fold_left scale_step ps (nzero N).
 Definition div6 (s : T) (p : P6) : P6 :=
-  let '(x, y, z, vx, vy, vz) := p in
-  (ndiv N x s, ndiv N y s, ndiv N z s, ndiv N vx s, ndiv N vy s, ndiv N vz s).
+  let '(m, x, y, z, vx, vy, vz) := p in
+  (ndiv N m s, ndiv N x s, ndiv N y s, ndiv N z s, ndiv N vx s, ndiv N vy s, ndiv N vz s).
 
 (* body of the loop over var_config; third component true = `return` *)
 Definition rescale_one (lg : T -> T) (big : T) (fl : Flags) (c : VCfg) : Flags * VCfg * bool :=
